@@ -13,6 +13,35 @@ def sg_mode(name):
 def compile_graph(nodes, sup_name, cg, mode="MCS", prune=True, S_init=None, buffer_sizes=None, extra_padding=0):
     from rex.graph import Graph
 
+    try:
+        return _compile(Graph, nodes, sup_name, cg, mode, prune, S_init, buffer_sizes, extra_padding)
+    except AssertionError as ex:
+        # The documented rejection for a supervisor that depends on nothing ("There are no nodes in the partition")
+        # surfaces as an assertion of the supergraph library in GENERATIONAL / TOPOLOGICAL mode, which evaluates the
+        # supergraph before rex gets to its own check. Classify it by an own ancestor computation.
+        if "No new nodes have been matched" in str(ex) and prune and not _supervisor_has_ancestors(nodes, sup_name, cg):
+            raise ValueError("There are no nodes in the partition (excl. supervisor). [supergraph evaluation: nothing to match]") from ex
+        raise
+
+
+def _supervisor_has_ancestors(nodes, sup_name, cg):
+    import jax
+    import networkx as nx
+
+    from rex import utils
+
+    g = jax.tree_util.tree_map(lambda x: onp.asarray(x) if onp.asarray(x).ndim == 2 else onp.asarray(x)[None], cg)
+    wg = utils.apply_window(nodes, g)
+    graphs = wg.to_graph()
+    for e in range(len(graphs)):
+        G = utils.to_networkx_graph(graphs[e], nodes=nodes)
+        for n, d in G.nodes(data=True):
+            if d["kind"] == sup_name and any(G.nodes[a]["kind"] != sup_name for a in nx.ancestors(G, n)):
+                return True
+    return False
+
+
+def _compile(Graph, nodes, sup_name, cg, mode, prune, S_init, buffer_sizes, extra_padding):
     return Graph(
         nodes=nodes,
         supervisor=nodes[sup_name],
